@@ -91,6 +91,7 @@ Definition L_semi : bytes := [59].
 Definition L_lbrack : bytes := [91].
 Definition L_rbrack : bytes := [93].
 Definition L_bang : bytes := [33].
+Definition L_minus : bytes := [45].
 Definition L_arrow : bytes := [60; 45].
 Definition L_or : bytes := [111; 114].
 Definition L_oror : bytes := [124; 124].
@@ -208,18 +209,6 @@ Fixpoint num_of (base : N) (s : bytes) (acc : N) : option N :=
   | c :: s' =>
       if is_digit c && (c - 48 <? base) then num_of base s' (acc * base + (c - 48)) else None
   end.
-(* strconv.ParseInt(text, 0, 64) on a digit string: a leading 0 means octal *)
-Definition parse_int (s : bytes) : option Z :=
-  let r := match s with
-           | [] => None
-           | 48 :: s' => num_of 8 s' 0
-           | _ => num_of 10 s 0
-           end in
-  match r with
-  | Some n => if n <? 9223372036854775808 then Some (Z.of_N n) else None
-  | None => None
-  end.
-
 (* strings.Trim(text, "{}") *)
 Fixpoint drop_while (p : N -> bool) (s : bytes) : bytes :=
   match s with
@@ -230,6 +219,42 @@ Definition is_brace (c : N) : bool := (c =? 123) || (c =? 125).
 Definition param_name (s : bytes) : bytes :=
   rev (drop_while is_brace (rev (drop_while is_brace s))).
 
+(* participle.Map(f, "Int") in DefaultParserOptions (pinned: [lexer_map_pin]): the value of
+   every Int token is rewritten before the grammar sees it, leading zeros are stripped and a
+   single "0" is kept when the text is all zeros.  No grammar literal is a digit string (and
+   "hex:" is not a prefix of one), so the only place where the value of an Int token matters is
+   its conversion: the mapper is applied there. *)
+Definition lexer_map_pin : list (string * string) :=
+  [("Int", "func(t lexer.Token) (lexer.Token, error) { if v := strings.TrimLeft(t.Value, ""0""); v != """" { t.Value = v } else { t.Value = ""0"" } return t, nil }")]%string.
+Definition strip_zeros (s : bytes) : bytes :=
+  match drop_while (fun c => c =? 48) s with
+  | [] => [48]
+  | v => v
+  end.
+
+(* strconv.ParseInt(text, 0, 64) on a digit string: a leading 0 means octal *)
+Definition int_magnitude (s : bytes) : option N :=
+  match s with
+  | [] => None
+  | 48 :: s' => num_of 8 s' 0
+  | _ => num_of 10 s 0
+  end.
+(* the mapped value never has a leading zero except "0" itself, so the base-0 conversion is
+   a base-10 conversion of the digits as written (Proofs: [int_magnitude_decimal]) *)
+Definition parse_int (s : bytes) : option Z :=
+  match int_magnitude (strip_zeros s) with
+  | Some n => if n <? 9223372036854775808 then Some (Z.of_N n) else None
+  | None => None
+  end.
+(* the Integer alternative of Term is @("-":Operator? Int): participle joins the captured
+   token values, so the text converted is "-" ++ (mapped) digits.  strconv.ParseInt strips the
+   sign before it looks at the base prefix, and accepts the magnitude 2^63 for a negative number *)
+Definition parse_neg_int (s : bytes) : option Z :=
+  match int_magnitude (strip_zeros s) with
+  | Some n => if n <=? 9223372036854775808 then Some (- Z.of_N n)%Z else None
+  | None => None
+  end.
+
 Fixpoint has_prefix (s p : bytes) : bool :=
   match p, s with
   | [], _ => true
@@ -238,12 +263,17 @@ Fixpoint has_prefix (s p : bytes) : bool :=
   end.
 
 (* ================= Term ================= *)
+(* Parameter | Variable | Bytes | String | Date | Integer | Bool | Set.
+   The head of the Integer alternative, ("-":Operator)?, is an optional group: it always
+   matches, so when no Int token follows the alternative fails with an error (within the
+   lookahead) instead of "no match", the remaining alternatives are tried, and a Term that
+   matches no alternative reports that error at its own start: [PErr ts], never [PNone]. *)
 Fixpoint parse_term (f : nat) (ts : list token) {struct f} : pres gterm :=
   match f with
   | O => PFuel
   | S f' =>
       match ts with
-      | [] => PNone
+      | [] => PErr ts
       | t :: r =>
           if kind_eqb (tk t) KParameter then POk (GParam (param_name (tx t))) r
           else if kind_eqb (tk t) KVariable then POk (GVar (tl (tx t))) r
@@ -254,6 +284,18 @@ Fixpoint parse_term (f : nat) (ts : list token) {struct f} : pres gterm :=
             match parse_int (tx t) with
             | Some z => POk (GInt z) r
             | None => PErr r                 (* the capture fails when the struct is applied *)
+            end
+          else if is_lit t L_minus && kind_eqb (tk t) KOperator then
+            (* the sign of the Integer alternative; neither Bool nor Set starts with it *)
+            match r with
+            | n :: r2 =>
+                if kind_eqb (tk n) KInt then
+                  match parse_neg_int (tx n) with
+                  | Some z => POk (GInt z) r2
+                  | None => PErr r2
+                  end
+                else PErr ts
+            | [] => PErr ts
             end
           else if kind_eqb (tk t) KBool then POk (GBool (bytes_eqb (tx t) L_true)) r
           else if is_lit t L_lbrack then
@@ -274,7 +316,7 @@ Fixpoint parse_term (f : nat) (ts : list token) {struct f} : pres gterm :=
             | PErr p => PErr (disj_err ts p)
             | PFuel => PFuel
             end
-          else PNone
+          else PErr ts
       end
   end
 (* ("," Term)* *)
